@@ -1,8 +1,15 @@
 package c13
 
 // Worker (child process) side of the C13 harness: owns the real resources.NewCRDT instances of one
-// execution at a time plus the scripted peer X, performs one move per request, waits until the
+// execution at a time plus the scripted peers, performs one move per request, waits until the
 // asynchronous merges have landed, and returns what can be observed.  It never judges anything.
+//
+// Topology of one execution: replica i listens on its own port (NewCRDT), but its peers reach it
+// through a gate: an RPC service registered under the receiver's name on another port that forwards
+// every call to the replica's own receiver (unchanged ReceiveValue, overlay accessor
+// VerifCRDTReceiver).  A gate, like a scripted peer's handler, can park a call "on the wire" so that
+// a broadcast round stays in flight while other moves happen (b/e moves), or so that a scripted peer
+// accepts a call without answering within the send timeout (s/r moves).
 //
 // The worker is a separate process because instances cannot be closed (crdt.Close waits for the
 // broadcast ticker, which is disabled here): each execution abandons a parked goroutine per instance
